@@ -94,6 +94,18 @@ def gen_cases(rng: Rng, tier):
         case = dict(kind="ufpca", method=method, normalize=normalize, score=score, sel=sel, ck=ck,
                     a=rs(rng.dyadic(-3, 3, 2)), b=rs(rng.dyadic(-3, 3, 2)), seed=rng.subseed(),
                     layout=rng.choice(["C", "C", "F", "S"]), **data)
+        if k % 3 != 2:
+            # refit history across KINDS of data on the same estimator object: 1-D <-> 2-D (inner-product method),
+            # other grid size and noisy <-> noise-free curves (covariance method)
+            if method == "inner-product" and not two_d:
+                r1, r2 = rng.randint(2, 4), rng.randint(2, 4)
+                XR, _ = curves(rng, rng.randint(3, 6), [Fraction(j) for j in range(r1 * r2)], rng.choice(["rough", "lowrank"]))
+                case["R"] = dict(dim=2, t=Svec(grid(rng, r1)), t2=Svec(grid(rng, r2)), X=Smat(XR))
+            else:
+                mR = rng.randint(4, 12)
+                tR = grid(rng, mR)
+                XR, _ = curves(rng, rng.randint(3, 7), tR, "rough" if ck in ("smooth", "lowrank", "offset") else "smooth")
+                case["R"] = dict(dim=1, t=Svec(tR), X=Smat(XR))
         if k % 2 == 0 or two_d:
             # two-grid history in one process: afterwards the same pipeline runs on ANOTHER grid with the same
             # number of points and the same end points (other interior points), with other curves
@@ -231,13 +243,31 @@ def _case_b(case):
 def run_impl(case):
     if case["kind"] == "mfpca":
         return _run_mfpca(case)
-    out = _run_ufpca(case)
+    holder = []
+    out = _run_ufpca(case, holder=holder)
     if "B" in case and "error" not in out:
         out["B"] = _run_ufpca(_case_b(case))   # same process, afterwards: another grid with the same length and end points
+    if "R" in case and "error" not in out and holder:
+        from FDApy.preprocessing.dim_reduction.ufpca import UFPCA
+
+        cr = _case_r(case)
+        out["R"] = _run_ufpca(cr, est=holder[0])   # the SAME estimator object refitted on another kind of data
+        with quiet():
+            fresh = UFPCA(method=cr["method"], n_components=sel_to_py(cr["sel"]), normalize=cr["normalize"])
+            _, e = _try(lambda: fresh.fit(_fd(cr)))
+            out["R_fresh"] = dict(error=e) if e else _state(fresh, cr)
     return out
 
 
-def _run_ufpca(case):
+def _case_r(case):
+    cr = {k: v for k, v in case.items() if k not in ("B", "R", "t", "t2", "X", "dim", "corpus", "scale")}
+    cr.update(case["R"])
+    if cr["dim"] == 2 and cr["score"] == "PACE":
+        cr["score"] = "NumInt"
+    return cr
+
+
+def _run_ufpca(case, est=None, holder=None):
     from FDApy.preprocessing.dim_reduction.ufpca import UFPCA
 
     out = {}
@@ -245,7 +275,10 @@ def _run_ufpca(case):
     fd = _fd(case)
     score = case["score"]
     with quiet():
-        est = UFPCA(method=case["method"], n_components=sel_to_py(case["sel"]), normalize=case["normalize"])
+        if est is None:
+            est = UFPCA(method=case["method"], n_components=sel_to_py(case["sel"]), normalize=case["normalize"])
+        if holder is not None:
+            holder.append(est)
         _, err = _try(lambda: est.fit(fd))
         if err:
             return dict(error=err)
@@ -295,7 +328,7 @@ def _run_ufpca(case):
         if "inv1" in out:
             again, _ = _try(lambda: est.inverse_transform(np.array(fl(Fm(S1))).reshape(n, K)))
             out["inv1_again"] = None if again is None else _flat(again.values)
-        out["state_again"] = {k: v for k, v in _state(est, case).items() if k in ("vals", "weights", "mean")}
+        out["state_again"] = {k: v for k, v in _state(est, case).items() if k in ("vals", "weights", "mean", "phi", "cov", "noise")}
         X2 = X[::-1] * 0.5 + np.arange(X.shape[1]) / 8.0
         _, e8 = _try(lambda: est.fit(_fd(case, X2)))
         fresh = UFPCA(method=case["method"], n_components=sel_to_py(case["sel"]), normalize=case["normalize"])
@@ -388,6 +421,8 @@ def _requests(case, impl):
     reqs = _requests_one(case, impl)
     if case["kind"] == "ufpca" and "B" in case and isinstance(impl.get("B"), dict):
         reqs += [("B:" + tag, l) for tag, l in _requests_one(_case_b(case), impl["B"])]
+    if case["kind"] == "ufpca" and "R" in case and isinstance(impl.get("R"), dict):
+        reqs += [("R:" + tag, l) for tag, l in _requests_one(_case_r(case), impl["R"])]
     return reqs
 
 
@@ -480,7 +515,9 @@ def compare(case, impl, model):
             ds.append(f"model request {tag} answered {o}")
     if ds:
         return ds
-    ds = _compare_one(case, impl, {k: v for k, v in outs.items() if not k.startswith("B:")})
+    ds = _compare_one(case, impl, {k: v for k, v in outs.items() if not k.startswith(("B:", "R:"))})
+    if case["kind"] == "ufpca" and "R" in case and isinstance(impl.get("R"), dict):
+        ds += ["refit on another kind of data: " + d for d in _compare_one(_case_r(case), impl["R"], {k[2:]: v for k, v in outs.items() if k.startswith("R:")})]
     if case["kind"] == "ufpca" and "B" in case and isinstance(impl.get("B"), dict):
         ds += ["second grid: " + d for d in _compare_one(_case_b(case), impl["B"], {k[2:]: v for k, v in outs.items() if k.startswith("B:")})]
     return ds
@@ -540,6 +577,23 @@ def oracle(case, impl):
         for v in _oracle_one(_case_b(case), impl["B"]):
             v["msg"] = "second grid (same length and end points): " + v["msg"]
             vs.append(v)
+    if "R" in case and isinstance(impl.get("R"), dict) and "__crash__" not in impl:
+        cr = _case_r(case)
+        for v in _oracle_one(cr, impl["R"]):
+            v["msg"] = f"same estimator refitted on another kind of data ({case['dim']}-D -> {cr['dim']}-D): " + v["msg"]
+            vs.append(v)
+        fr = impl.get("R_fresh") or {}
+        if ("error" in impl["R"]) != ("error" in fr):
+            vs.append(dict(clause="stale_state", entry="UFPCA.fit", causes=[], msg=f"refit on another kind of data: {impl['R'].get('error')} vs fresh estimator: {fr.get('error')}"))
+        elif "error" not in fr:
+            for key in ("noise", "vals", "weights", "mean", "phi", "cov"):
+                if key in impl["R"] and key in fr:
+                    a1, a2 = np.array(impl["R"][key], dtype=float), np.array(fr[key], dtype=float)
+                    if a1.shape != a2.shape or not np.array_equal(a1, a2, equal_nan=True):
+                        names = {"noise": "noise variance", "vals": "eigenvalues", "phi": "eigenfunctions", "cov": "covariance"}
+                        vs.append(dict(clause="stale_state", entry="UFPCA.fit", causes=[],
+                                       msg=f"the same estimator refitted on another kind of data ({case['dim']}-D -> {cr['dim']}-D, {case['method']}) has a different `{names.get(key, key)}` than a fresh estimator: {np.ravel(a1)[:3].tolist()} vs {np.ravel(a2)[:3].tolist()}"))
+                        break
     return vs
 
 
@@ -680,7 +734,9 @@ def _oracle_one(case, impl):
     if impl.get("inv1_again") is not None and not np.array_equal(np.array(impl["inv1_again"]), np.array(impl["inv1"]), equal_nan=True):
         bad("repeatable", "inverse_transform of the same scores changed after transform() had been called on other data", entry="UFPCA.inverse_transform")
     if "state_again" in impl:
-        for key in ("vals", "weights", "mean"):
+        for key in ("vals", "weights", "mean", "phi", "cov", "noise"):
+            if key not in impl["state_again"] or key not in impl:
+                continue
             if not np.array_equal(np.array(impl["state_again"][key], dtype=float), np.array(impl[key], dtype=float), equal_nan=True):
                 bad("repeatable", f"transform() on other data changed the fitted `{key}`")
                 break
